@@ -47,9 +47,9 @@ CHECKS = {
    "For tx-mode file/all/none and 4 (thorough 14) directory shapes incl. per-file txmode directives, a counting run lists every crash point the real `atlas migrate apply` passes (before/after each statement, each revision write, each commit); for each one the process is killed there (exit 137, no deferred code) on a fresh SQLite file and the same command is run again: after the crash no file may be half applied in file/all mode and no revision may record more statements than took effect; after the re-run every statement's effect is present exactly once (none mode: at most the one in-flight statement twice) and all revisions are complete.",
    "SQLite file engine only; kill = os.Exit at a hook (not a torn disk write - SQLite's journal recovery is trusted); the advisory lock of the killed process is assumed expired."),
  "C11": ("model_checking",
-   "exhaustive enumeration of (directory, revision table, options) configurations on the real Executor.Pending/ExecuteN against an executable set-based reference model",
-   "Every directory over a universe of 4 (thorough: 5) versions (absent/migration/checkpoint) x every revision table (any subset applied, last optionally partial) x exec order x {none, allow-dirty, baseline=v} x {clean, dirty} is decided by the real Executor.Pending and compared - error class, out-of-order set and exact file list - with refPending written from the documented semantics; ExecuteN(n) for every n must run exactly the first n pending files and leave none of them pending.",
-   "Recording driver/store in process; fixed-width versions; cases the documentation does not define are counted, not judged."),
+   "exhaustive enumeration of (directory, revision table, options) configurations on the real Executor.Pending/ExecuteN against an executable set-based reference model, plus breadth-first search over CLI operation histories (add/apply/set/fix/remove) on the real binary with the same model as oracle",
+   "Every directory over a universe of 4 (thorough: 5) versions (absent/migration/checkpoint) x every revision table (any subset applied, last optionally partial) x exec order x {none, allow-dirty, baseline=v} x {clean, dirty} is decided by the real Executor.Pending and compared - error class, out-of-order set and exact file list - with refPending written from the documented semantics; ExecuteN(n) for every n must run exactly the first n pending files and leave none of them pending. A BFS to depth 4 (thorough 5) over CLI histories {add file, add failing file, add out-of-order file, apply, apply 1, apply non-linear / linear-skip, set 2, set 4, fix, remove newest} on a real SQLite file checks in every reached state that `migrate status` reports the model's pending/out-of-order files for the actual revision rows, that `migrate apply [n]` executes exactly the statements the decision implies, and that nothing up to v is pending after `migrate set v`.",
+   "Recording driver/store in process for the configuration sweep, SQLite file for the CLI BFS; fixed-width versions; cases the documentation does not define are counted, not judged."),
  "C12": ("model_checking",
    "exhaustive enumeration of (file, progress, edit) histories executed on the real migrate.Executor, judged by the prefix-equality rule",
    "All files of n<=5 statements x every partial progress k (revision produced by a real failing run) x every single edit (thorough: every pair of edits for n<=4) x 2 directory layouts are re-hashed and re-run on the real Executor: a changed applied prefix must give HistoryChangedError, zero executed statements, untouched history and no panic; a changed tail must resume with exactly the new tail and leave the version done for a following Pending.",
